@@ -401,8 +401,23 @@ pub fn run(ctx: &Ctx) -> Result<Evidence, String> {
         let doc = Doc::new(d);
         // baseline at serde_json::Value
         let base = run_at(q, &*doc.value, &|v: &serde_json::Value| J::from_value(v));
-        // VecJson in the same member order as Value enumerates
-        let vj = to_vec(&doc.j, false);
+        // VecJson in the same member order as Value enumerates; in the comparison family the
+        // right operand's objects list their members in the opposite order (a Queryable type
+        // may keep insertion order, and RFC 9535 equality of objects ignores member order)
+        let mut vj = to_vec(&doc.j, false);
+        if fam == "comparison-table" {
+            if let VecJson::List(items) = &mut vj {
+                if let Some(VecJson::Map(m)) = items.get_mut(0) {
+                    for (k, v) in m.iter_mut() {
+                        if k == "r" {
+                            if let Some(rj) = doc.j.at(&[oracle::json::Step::Idx(0), oracle::json::Step::Key("r".into())]) {
+                                *v = to_vec(rj, true);
+                            }
+                        }
+                    }
+                }
+            }
+        }
         let got_v = run_at(q, &vj, &from_vec);
         let fj = to_f64j(&doc.j);
         let got_f = run_at(q, &fj, &from_f64j);
